@@ -2,16 +2,18 @@
 # tools/confirm_seed.sh <seed-out-dir> <pkg-dir-for-demo> <test-run-regex> [timeout]
 # Confirms in a scratch worktree of /repo HEAD: demo passes clean; with patch: builds, suite passes, demo fails.
 out="$1"; pkg="$2"; re="$3"; to="${4:-120s}"
+# RACE=1 runs the demonstration under the race detector (C17 seeds)
+race=""; [ -n "${RACE:-}" ] && race="-race"
 export GOFLAGS=-mod=mod GOPROXY=off GOSUMDB=off GOTOOLCHAIN=local
 wt=$(mktemp -d /tmp/cs_XXXX); rmdir "$wt"
 git -C /repo worktree add -q --detach "$wt" HEAD || exit 9
 cd "$wt"
 cp "$out"/demo_test.go "$pkg"/zz_demo_test.go 2>/dev/null || cp "$out"/*_test.go "$pkg"/
-echo "--- clean tree demo:"; go test -vet=off -count=1 -timeout "$to" -run "$re" ./"$pkg" 2>&1 | tail -3
+echo "--- clean tree demo:"; go test $race -vet=off -count=1 -timeout "$to" -run "$re" ./"$pkg" 2>&1 | tail -3
 git checkout -q go.mod go.sum 2>/dev/null
 if git apply "$out"/patch.diff; then
   echo "--- build:"; go build ./... && echo ok
   echo "--- suite with patch:"; go test -vet=off -count=1 -skip 'TestWriteControl|TestWritingFiles|TestDemo|TestC[0-9]+Demo|TestSeed' ./... 2>&1 | grep -v "^ok\|no test files" | tail -5
-  echo "--- demo with patch:"; go test -vet=off -count=1 -timeout "$to" -run "$re" ./"$pkg" 2>&1 | tail -4
+  echo "--- demo with patch:"; go test $race -vet=off -count=1 -timeout "$to" -run "$re" ./"$pkg" 2>&1 | tail -4
 else echo "PATCH DOES NOT APPLY"; fi
 cd /; git -C /repo worktree remove --force "$wt"
